@@ -102,7 +102,7 @@ def run(ctx):
             # the operation calls ANOTHER decorated operation (own class, own recording parameters, or skipped) from its body
             prog['inner_prog'] = {'seed_world': 7, 'class_level': False, 'extractor': None, 'params': irng.choice([None, None, {'skipped': True}]),
                                   'inputs': [], 'outputs': [], 'opts': {'raise_rate': 0.0}, 'uid': prog.get('uid', 0) + 700000,
-                                  'body': [{'op': 'return', 'value': {'lit': 'inner-result'}}]}
+                                  'body': [{'op': 'return', 'expr': {'lit': 'inner-result'}}]}
             body = prog['body']
             last = len(body) - (1 if body and body[-1]['op'] in ('return', 'raise') else 0)
             body.insert(irng.randrange(last + 1), {'op': 'inner_op'})
